@@ -452,6 +452,41 @@ func ruleC06R3(r *Run, le *LockEngine) {
 	r.Check(name+" delivers outside the lock", !held, posOf(p, snd), name, fmt.Sprintf("locks held at the delivery: %v", h))
 }
 
+// c06DeleteOnFoundEdge: the delete sits on the found edge of the test of ok, and from that edge ret is reachable only
+// through the delete.
+func c06DeleteOnFoundEdge(h *ssa.Function, ok ssa.Value, del, ret ssa.Instruction) bool {
+	good := false
+	allInstrs(h, func(ins ssa.Instruction) {
+		ifs, isIf := ins.(*ssa.If)
+		if !isIf || !sameValue(ifs.Cond, ok) {
+			return
+		}
+		found := ifs.Block().Succs[0]
+		if !edgeDominates(ifs.Block(), found, del.Block()) {
+			return
+		}
+		seen := map[*ssa.BasicBlock]bool{del.Block(): true}
+		stack := []*ssa.BasicBlock{found}
+		around := false
+		for len(stack) > 0 {
+			b := stack[len(stack)-1]
+			stack = stack[:len(stack)-1]
+			if seen[b] {
+				continue
+			}
+			seen[b] = true
+			if b == ret.Block() {
+				around = true
+			}
+			stack = append(stack, b.Succs...)
+		}
+		if !around {
+			good = true
+		}
+	})
+	return good
+}
+
 // ruleC06R3ViaHelper: the lookup and the delete sit in helper h, which returns the looked-up channel (and a found flag);
 // the send is in a caller. The same three facts are established across the call: the helper returns the channel only
 // after the delete and only on the found edge, reports "found" truthfully, and the caller sends the very message whose
@@ -492,7 +527,11 @@ func ruleC06R3ViaHelper(r *Run, le *LockEngine, h *ssa.Function, lk *ssa.Lookup,
 			if canonVal(rv) == lkVal || rv == lkVal {
 				chIdx = j
 				if !dominatesInstr(del, ret) || !condTrueDominates(h, lkOk, ret) {
-					okHelper = false
+					// one common return for both outcomes: the looked-up value is nil when nothing was found, so this
+					// is the same contract as long as the found edge cannot get to the return around the delete
+					if !c06DeleteOnFoundEdge(h, lkOk, del, ret) {
+						okHelper = false
+					}
 				}
 			}
 		}
